@@ -194,6 +194,10 @@ class TasksFamily(_Base):
     cfg['app_error'] = (rng.randrange(cfg['tasks'])
                         if rng.random() < 0.25 else None)
     cfg['ignore_failures'] = rng.random() < 0.4
+    # the caller may stop consuming early (break / close of the generator):
+    # the workers have to be released all the same
+    cfg['close_after'] = (rng.randrange(0, cfg['tasks'] + 1)
+                          if rng.random() < 0.2 else None)
     return cfg
 
   def drive(self, cfg, sim):
@@ -204,11 +208,22 @@ class TasksFamily(_Base):
     self._jumper(cfg, sim, obs)
     tasks = [lazy_fns.trace(L.task_fn)(i, fail=cfg['app_error'])
              for i in range(cfg['tasks'])]
+    gen = orchestrate.as_completed(
+        pool, tasks, ignore_failures=cfg['ignore_failures'])
     try:
-      for r in orchestrate.as_completed(
-          pool, tasks, ignore_failures=cfg['ignore_failures']):
+      k = cfg.get('close_after')
+      closed = False
+      for r in (gen if k != 0 else ()):
         obs['results'].append(list(r) if isinstance(r, tuple) else repr(r))
-      obs['end'] = ['ok']
+        if k is not None and len(obs['results']) >= k:
+          closed = True
+          break
+      if k is not None and (closed or k == 0):
+        sim.count('fault:consumer_closes_early')
+        gen.close()
+        obs['end'] = ['closed', len(obs['results'])]
+      else:
+        obs['end'] = ['ok']
     except Exception as e:  # pylint: disable=broad-exception-caught
       obs['end'] = ['exc', type(e).__name__, str(e)[:300]]
     obs['acquired'] = [w.address for w in pool.acquired_workers]
@@ -245,7 +260,9 @@ class TasksFamily(_Base):
     if foreign and not dup:
       res.append(v('exactly-once', 'unexpected-result:tasks', f'{foreign}'))
     app = cfg['app_error'] is not None
-    if end == ['ok']:
+    if end[0] == 'closed':
+      pass
+    elif end == ['ok']:
       missing = [w for w in want if w not in got]
       if missing:
         res.append(v('exactly-once', 'result-silently-missing:tasks',
@@ -267,7 +284,8 @@ class TasksFamily(_Base):
                      f'{end}; fired {obs["fired"]}; restarts {obs["restarts"]}'))
       # otherwise any error is acceptable
     if obs['acquired']:
-      how = 'after-error' if end != ['ok'] else 'after-return'
+      how = ('after-close' if end[0] == 'closed' else
+             'after-error' if end != ['ok'] else 'after-return')
       res.append(v('release', f'workers-still-acquired:{how}:tasks',
                    f"{obs['acquired']} end={end}"))
     return res
@@ -409,7 +427,8 @@ class ShardsFamily(_Base):
       # otherwise (no usable worker, budget possibly exhausted, or a clock
       # jump): any error is acceptable; what is not is a silently wrong result
     if obs['acquired']:
-      how = 'after-error' if end != ['ok'] else 'after-return'
+      how = ('after-close' if end[0] == 'closed' else
+             'after-error' if end != ['ok'] else 'after-return')
       res.append(v('release', f'workers-still-acquired:{how}:shards',
                    f"{obs['acquired']} end={end}"))
     return res
